@@ -495,7 +495,7 @@ func GetAttrTypeString(t int, nullable bool) string {
 	case AttrTypeBytes:
 		str = "bytes"
 	default:
-		str = ""
+		return ""
 	}
 
 	if nullable {
